@@ -13,9 +13,12 @@
  *   codec     vpackvg on hand-built VGROUP structs -> `packrec`; vunpackvg on records written by an independent
  *             writer in this file (versions 2,3,4, >4, negative; flags; attribute lists; NULs inside names) -> `unpackrec`;
  *   external  a DFTAG_VG record written with Hputelement by the independent writer, then loaded by Vstart -> `putrec`;
- *   probes    (cases 7,8,9 mod 50, unless argv[4] == "noprobe"):  the 65536th Vaddtagref (uint16 nvelt wrap),
- *             Vlone with a member (DFTAG_VG, 65535) (one byte past the flag array), rewrite of a version-4 record
- *             whose flags word is 0 (packer and unpacker disagree on the layout).
+ *   limits    (cases 7,8 mod 50): a Vgroup filled to MAX_REF = 65535 members refuses further Vaddtagref/Vinsert and keeps
+ *             its members (in memory, on disk, after reopen); Vlone/VSlone with a Vgroup and a Vdata whose ref is 65535.
+ *             (Both were defects of /repo until dc883d2 / dcf9aab: uint16 nvelt wrap, flag arrays one entry short.)
+ *   probe     (case 9 mod 50, unless argv[4] == "noprobe"): rewrite of a version-4 record whose flags word is 0
+ *             (packer and unpacker disagree on the layout).  Compiled with -DFIXED3 (library with the proposed fix)
+ *             it is an ordinary positive test and the model is told so (`T vg config fixed3 1`).
  * T lines (engine `vg`): see lean/H4/Driver/VGroup.lean.  Refs handed out by Hnewref are INPUTS of the model.
  * Oracles (model-independent): the shadow graph below (ordered member lists, names, classes, attribute counts,
  * sets of Vgroups/Vdatas, lone sets, iteration order) is compared with every API answer.
@@ -471,8 +474,6 @@ static void pick_newmember(int *t, int *r)
     else if (k < 8) *r = (int)hk_range(0, 10);
     else if (k < 9) *r = (int)hk_range(0, 65535);
     else *r = 65535;
-    /* (DFTAG_VG|DFTAG_VH, 65535) makes Vlone/VSlone write past their flag array: covered by the dedicated probe */
-    if ((*t == DFTAG_VG || *t == DFTAG_VH) && *r == 65535) *r = 65534;
 }
 static void m_addtagref(int s)
 {
@@ -480,7 +481,8 @@ static void m_addtagref(int s)
     int t, r; pick_newmember(&t, &r);
     if (g->n >= MAXMEM - 1) return;
     int32 res = Vaddtagref(slot[s].vkey, t, r);
-    printf("T vg addtagref %d %d %d => %d\n", s, t, r, (int)res);
+    printf("T vg addtagref %d %d %d => ", s, t, r); if (res == FAIL) printf("fail\n"); else printf("%d\n", (int)res);
+    if (g->n >= 65535) { if (res != FAIL) hk_fail("vg-full", "Vaddtagref into a vgroup with 65535 members returned %d", (int)res); return; }
     g->tag[g->n] = (uint16)t; g->rf[g->n] = (uint16)r; g->n++;
     if (res != g->n) hk_fail("vg-add", "Vaddtagref returned %d, shadow count %d", (int)res, g->n);
     hk_stat("op_add", 1);
@@ -499,6 +501,7 @@ static void m_insert(int s)
         int r2 = sg[slot[s2].gi].ref, dup = 0;
         for (int i = 0; i < g->n; i++) if (g->tag[i] == DFTAG_VG && g->rf[i] == r2) dup = 1;
         if (dup) { if (res != FAIL) hk_fail("vg-insert-dup", "Vinsert accepted a duplicate link"); return; }
+        if (g->n >= 65535) { if (res != FAIL) hk_fail("vg-full", "Vinsert into a full vgroup returned %d", (int)res); return; }
         if (res == FAIL) { if (slot[s].w) hk_fail("vg-insert", "Vinsert(vg) failed on a write handle"); return; }
         if (res != g->n) hk_fail("vg-insert", "Vinsert returned position %d, shadow %d", (int)res, g->n);
         g->tag[g->n] = DFTAG_VG; g->rf[g->n] = (uint16)r2; g->n++;
@@ -847,7 +850,9 @@ static void external_case(int k, int probe_wrap)
     rec_random(&r, 1, 1500);
     if ((int16)r.version > 4 || (int16)r.version < 2) r.version = 3; /* unknown versions leave a vgroup without arrays */
     if (r.version == 4 && (r.flags & 1)) r.flags &= ~1u;            /* attribute vdatas would have to exist */
+#ifndef FIXED3
     if (r.version == 4 && r.flags == 0) r.flags = 2;                /* version 4 without flags: see probe_v4_noflags */
+#endif
     uint16 ref = Hnewref(fid);
     int    len;
     static uint16 *bt, *br;
@@ -889,16 +894,32 @@ static void external_case(int k, int probe_wrap)
     slot[0].live = 1; slot[0].vkey = vk; slot[0].gi = (int)(g - sg); slot[0].w = 1; g->nattach = 1;
     check_members(0, "external"); check_names(0, "external");
     if (probe_wrap) {
+        /* 65530 members on disk: five more fit, then the vgroup is full (MAX_REF members) */
         for (int i = 0; i < 8; i++) {
             int32 res = Vaddtagref(vk, 2000, i + 1);
-            printf("T vg addtagref 0 2000 %d => %d\n", i + 1, (int)res);
-            g->tag[g->n] = 2000; g->rf[g->n] = (uint16)(i + 1); g->n++;
+            printf("T vg addtagref 0 2000 %d => ", i + 1); if (res == FAIL) printf("fail\n"); else printf("%d\n", (int)res);
+            if (g->n < 65535) { g->tag[g->n] = 2000; g->rf[g->n] = (uint16)(i + 1); g->n++; if (res != g->n) hk_fail("vg-add", "Vaddtagref returned %d, shadow %d", (int)res, g->n); }
+            else if (res != FAIL) hk_fail("vg-full", "Vaddtagref number %d returned %d", 65531 + i, (int)res);
             int32 cnt = Vntagrefs(vk);
             printf("T vg ntagrefs 0 => %d\n", (int)cnt);
-            if (res != g->n || cnt != g->n) { hk_fail("vg-nvelt-wrap", "Vaddtagref number %d returned %d and Vntagrefs=%d: the vgroup lost its members (uint16 nvelt wrapped)", g->n, (int)res, (int)cnt); break; }
+            if (cnt != g->n) hk_fail("vg-nvelt-wrap", "after Vaddtagref number %d Vntagrefs=%d, shadow %d: members lost", 65531 + i, (int)cnt, g->n);
         }
-        m_detach(0);
+        { /* Vinsert of a vgroup into the full one */
+            m_new();
+            int s2 = -1; for (int i = 1; i < NSLOT; i++) if (slot[i].live) s2 = i;
+            if (s2 > 0) {
+                int32 res = Vinsert(vk, slot[s2].vkey);
+                printf("T vg insertvg 0 %d => ", s2); if (res == FAIL) printf("fail\n"); else printf("%d\n", (int)res);
+                if (res != FAIL) hk_fail("vg-full", "Vinsert into a full vgroup returned %d", (int)res);
+            }
+        }
+        check_members(0, "full vgroup");
+        m_deltagref(0); m_addtagref(0); m_addtagref(0); /* one slot is freed, refilled, full again */
+        check_members(0, "full vgroup after delete+add");
+        detach_all();
         q_diskrec(ref);
+        do_reopen(); /* attaches every vgroup, compares all 65535 members with the shadow and with the model */
+        hk_stat("full_vgroup", 1);
     }
     else {
         q_gettagrefs(0); q_names(0); q_getnext(0);
@@ -914,19 +935,47 @@ static void external_case(int k, int probe_wrap)
     if (k < 8) printf("SAMPLE external n=%d version=%d probe=%d\n", g->n, r.version, probe_wrap);
 }
 
-/* Vlone with a member (DFTAG_VG, 65535): lonevg[] has MAX_REF = 65535 cells */
-static void probe_lone(void)
+/* Vlone / VSlone at the top of the ref range: a Vgroup and a Vdata whose ref is 65535 (written as elements, then loaded) */
+static void lone_65535_case(void)
 {
+    static REC r;
     if (open_file(1) < 0) return;
-    m_new();
-    int   s0 = pick_live_slot();
-    int32 res = Vaddtagref(slot[s0].vkey, DFTAG_VG, 65535);
-    printf("T vg addtagref %d %d 65535 => %d\n", s0, DFTAG_VG, (int)res);
-    sg[slot[s0].gi].tag[0] = DFTAG_VG; sg[slot[s0].gi].rf[0] = 65535; sg[slot[s0].gi].n = 1;
-    fflush(stdout);
-    q_lone(); /* the sanitizer build stops here */
+    int vr = make_vdata(); /* a real vdata whose header and data are then copied to ref 65535 */
+    if (vr < 0) { close_file(); return; }
+    int32 l1 = Hlength(fid, DFTAG_VH, (uint16)vr), l2 = Hlength(fid, DFTAG_VS, (uint16)vr);
+    static uint8_t b1[4096], b2[4096];
+    if (l1 <= 0 || l1 > 4096 || l2 <= 0 || l2 > 4096 || Hgetelement(fid, DFTAG_VH, (uint16)vr, b1) != l1 || Hgetelement(fid, DFTAG_VS, (uint16)vr, b2) != l2) { hk_fail("vs-create", "cannot copy vdata"); close_file(); return; }
+    if (Hputelement(fid, DFTAG_VH, 65535, b1, l1) != l1 || Hputelement(fid, DFTAG_VS, 65535, b2, l2) != l2) { hk_fail("vg-put", "Hputelement ref 65535"); close_file(); return; }
+    memset(&r, 0, sizeof r);
+    r.namelen = 3; memcpy(r.name, "top", 3); r.version = 3;
+    int len = rec_write(&r, bigbuf);
+    if (Hputelement(fid, DFTAG_VG, 65535, bigbuf, len) != len) { hk_fail("vg-put", "Hputelement"); close_file(); return; }
+    printf("T vg putrec 65535 "); hk_hex(bigbuf, (size_t)len); printf(" => ok\n");
+    printf("T vg vsnew 65535 => ok\n");
+    close_file();
+    if (open_file(0) < 0) return;
+    printf("T vg reopen => ok\n");
+    SG *g = sg_new(65535); g->has_name = 1; g->namelen = 3; memcpy(g->name, "top", 3);
+    vds[nvds++] = 65535;
+    q_lone();            /* both 65535 objects are lone */
+    q_getid_walk(); q_vsgetid_walk();
+    m_new();             /* Hnewref with ref 65535 in use */
+    int s0 = pick_live_slot();
+    if (s0 >= 0) {
+        int32 res = Vaddtagref(slot[s0].vkey, DFTAG_VG, 65535);
+        printf("T vg addtagref %d %d 65535 => %d\n", s0, DFTAG_VG, (int)res);
+        sg[slot[s0].gi].tag[0] = DFTAG_VG; sg[slot[s0].gi].rf[0] = 65535; sg[slot[s0].gi].n = 1;
+        q_lone();        /* vgroup 65535 is a member now, vdata 65535 still lone */
+        res = Vaddtagref(slot[s0].vkey, DFTAG_VH, 65535);
+        printf("T vg addtagref %d %d 65535 => %d\n", s0, DFTAG_VH, (int)res);
+        sg[slot[s0].gi].tag[1] = DFTAG_VH; sg[slot[s0].gi].rf[1] = 65535; sg[slot[s0].gi].n = 2;
+        q_lone();
+        check_members(s0, "lone-65535");
+    }
+    do_reopen();
     detach_all();
     close_file();
+    hk_stat("lone_65535", 1);
 }
 
 /* A version-4 record whose flags word is 0 (legal on disk; this library never writes one itself).  vpackvg omits the
@@ -960,6 +1009,12 @@ static void probe_v4_noflags(void)
     m_detach(0);
     q_diskrec(ref);
     fflush(stdout);
+#ifdef FIXED3
+    /* library with the fix: the rewritten record carries its (zero) flags word and loads like any other */
+    do_reopen();
+    detach_all();
+    close_file();
+#else
     /* the model's vunpackvg reports "reads outside the record" for what is on disk now; no T line for this reopen */
     if (Vend(fid) == FAIL) hk_fail("vg-vend", "Vend");
     if (Hclose(fid) == FAIL) hk_fail("vg-hclose", "Hclose");
@@ -976,15 +1031,21 @@ static void probe_v4_noflags(void)
         Vdetach(vk);
     }
     Vend(fid); Hclose(fid); fid = FAIL;
+#endif
 }
 
 static void run_case(int k)
 {
     path = hk_tmp("v.hdf");
     reset_state();
-    if (probes_on && k % 50 == 7) { printf("INFO probe nvelt-wrap\n"); external_case(k, 1); return; }
-    if (probes_on && k % 50 == 8) { printf("INFO probe vlone-65535\n"); probe_lone(); return; }
+#ifdef FIXED3
+    printf("T vg config fixed3 1 => ok\n");
+    if (k % 50 == 9) { printf("INFO v4-noflags (fixed library)\n"); probe_v4_noflags(); return; }
+#else
     if (probes_on && k % 50 == 9) { printf("INFO probe v4-noflags\n"); probe_v4_noflags(); return; }
+#endif
+    if (k % 50 == 7) { printf("INFO full vgroup (65535 members)\n"); external_case(k, 1); return; }
+    if (k % 50 == 8) { printf("INFO lone with ref 65535\n"); lone_65535_case(); return; }
     int kind = (int)hk_range(0, 9);
     if (kind < 2) codec_case(k);
     else if (kind < 3) external_case(k, 0);
